@@ -600,6 +600,7 @@ class Engine:
         self.violations = []
         self.errors = []
         self._empty_model = None
+        self._int_cache = {}
 
     # -- solving ------------------------------------------------------------
     def _solve(self, pc):
@@ -788,16 +789,28 @@ class Engine:
             self.lits.setdefault(key, (pol, atom))
 
     def int(self, name, lo=None, hi=None):
-        x = z3.Int(name)
+        # the variable and its bound constraints are built once per engine and
+        # re-used by every path (building z3 terms dominates short paths)
+        cacheable = (lo is None or type(lo) is int) and (hi is None or type(hi) is int)
+        hit = self._int_cache.get((name, lo, hi)) if cacheable else None
+        if hit is None:
+            x = z3.Int(name)
+            if lo is not None and hi is not None and lo == hi:
+                cs = (x == lo,)
+            else:
+                cs = ()
+                if lo is not None:
+                    cs += (x >= lo,)
+                if hi is not None:
+                    cs += (x <= hi,)
+            hit = (x, cs, SymInt(x))
+            if cacheable:
+                self._int_cache[(name, lo, hi)] = hit
+        x, cs, sx = hit
         self.inputs[name] = x
-        if lo is not None and hi is not None and lo == hi:
-            self.assume(x == lo)
-            return SymInt(x)
-        if lo is not None:
-            self.assume(x >= lo)
-        if hi is not None:
-            self.assume(x <= hi)
-        return SymInt(x)
+        for c in cs:
+            self.assume(c)
+        return sx
 
     def bool(self, name):
         x = z3.Bool(name)
@@ -868,7 +881,9 @@ class Engine:
     def witness(self):
         w = {}
         for name, x in self.inputs.items():
-            v = z3.simplify(self._eval(x))
+            v = self._eval(x)
+            if not (z3.is_int_value(v) or z3.is_true(v) or z3.is_false(v)):
+                v = z3.simplify(v)
             if z3.is_int_value(v):
                 w[name] = v.as_long()
             elif z3.is_true(v):
